@@ -259,8 +259,11 @@ OptSet == {[name |-> n, group |-> g, as |-> a, loc |-> "", cb |-> FALSE] :
              n \in {"", "n", "a`b"}, g \in {"", "g", "g,flatten", "g,soft", ",flatten", "g,bogus", "a`b"},
              a \in {"", "I0", "IX", "I0,I0", "nil", "int", "pT0"}}
 
-Fn(ps, var, rs) == [nf |-> "", ps |-> ps, var |-> var, rs |-> rs]
-NonFunc(k)      == [nf |-> k, ps |-> <<>>, var |-> FALSE, rs |-> <<>>]
+\* vt: the element type of the variadic parameter (never looked at: a variadic parameter is
+\* dropped whatever it is made of)
+Fn(ps, var, rs) == [nf |-> "", ps |-> ps, var |-> var, vt |-> "str", rs |-> rs]
+FnV(ps, vt, rs) == [nf |-> "", ps |-> ps, var |-> TRUE, vt |-> vt, rs |-> rs]
+NonFunc(k)      == [nf |-> k, ps |-> <<>>, var |-> FALSE, vt |-> "str", rs |-> <<>>]
 
 \* the enumerated cases: [s |-> signature, o |-> options]
 CasesParams  == {[s |-> Fn(<<p>>, v, <<Plain("T7")>>), o |-> NoOpts] : p \in ParamItems, v \in BOOLEAN}
@@ -283,11 +286,14 @@ CasesLoc     == {[s |-> Fn(ps, FALSE, <<r>>), o |-> [NoOpts EXCEPT !.loc = l, !.
                     l \in {"", "pc0", "pc1", "real"}, c \in BOOLEAN}
 \* a function whose only parameter is the variadic one
 CasesVariadic == {[s |-> Fn(<<>>, TRUE, <<r>>), o |-> NoOpts] : r \in {Plain("T7"), Plain("erS"), Item("out", "", <<Fld(TRUE, "T0", "", "", "g")>>, "")}}
+CasesVariadicTy == {[s |-> FnV(ps, vt, <<Plain("T7")>>), o |-> NoOpts] :
+                      ps \in {<<>>, <<Plain("T0")>>, <<Item("in", "", <<Fld(TRUE, "T1", "n", "true", "")>>, "")>>},
+                      vt \in {"T0", "OUT1", "pOUT1", "IN1", "pIN1", "EPI", "EPO", "INOUT", "err", "IN2", "OUT2"}}
 CasesNonFunc == {[s |-> NonFunc(k), o |-> NoOpts] : k \in {"nil", "int", "struct", "ptrstruct", "nilfunc"}}
                 \cup {[s |-> Fn(<<>>, FALSE, <<>>), o |-> NoOpts], [s |-> Fn(<<>>, FALSE, <<Plain("err")>>), o |-> NoOpts]}
 
 AllCases == CasesParams \cup CasesParams2 \cup CasesResults \cup CasesResults2 \cup CasesOpts \cup CasesNonFunc
-            \cup CasesLoc \cup CasesVariadic
+            \cup CasesLoc \cup CasesVariadic \cup CasesVariadicTy
 
 -----------------------------------------------------------------------------
 (* Enumeration as a trivial state machine: one initial state per case *)
